@@ -63,6 +63,11 @@ func c17Variants() []c17Variant {
 		{"rdnss-wildcard+static", func(i *ref.Iface) {
 			i.RDNSS = append(i.RDNSS, T("servers", []string{"2001:db8::54", "::", "2001:db8::53"}, "lifetime", "2m"))
 		}},
+		// numeric order (::a before ::10, the wildcard's choice first) is not text order
+		{"rdnss-order", func(i *ref.Iface) {
+			i.RDNSS = append(i.RDNSS, T("servers", []string{"2001:db8::10", "2001:db8::a", "fd00::2"}, "lifetime", "3m"),
+				T("servers", []string{"::", "2001:db8:0:1::5", "2001:0:1::5"}, "lifetime", "4m"))
+		}},
 		{"dnssl", func(i *ref.Iface) { i.DNSSL = append(i.DNSSL, T("domain_names", []string{"B.Example", "a.example"})) }},
 		{"mtu", func(i *ref.Iface) { i.Scalars["mtu"] = 1500 }},
 		{"no-lla", func(i *ref.Iface) { i.Scalars["source_lla"] = false }},
@@ -516,7 +521,7 @@ func c17HistoryCheck(order []int, fwd bool) (out [][2]string) {
 func TestVerifC17(t *testing.T) {
 	r := ev.Begin("C17", "enum")
 	defer r.End(t)
-	r.Rule = "cases = configurations (no stanza; each of 17 stanza variants alone: static/wildcard/deprecated prefix and route, static/wildcard RDNSS, DNSSL, MTU, no source LLA, captive portal, PREF64, non-default header; all together; all minus each) x lifecycle {plugins never prepared, prepared through the real Prepare with the NewAddresser seam} x State reads {ok, failing (some error, ENOENT, EACCES)} x forwarding {on,off} x debug.prometheus x debug.pprof; for each: one metrics scrape (constScrape and Memory.Series) and GET /_/api/interfaces, /metrics, /debug/pprof/ on the real crhttp.Handler, under recover; oracle: no panic ever; prepared + readable state => every sample and the JSON equal the reference RA (every option kind rendered); /metrics and /debug/pprof/ are 200 iff enabled, 404 otherwise; plus scrape histories over two advertising interfaces prepared one after the other (scrape after every step): no duplicate sample, every scrape equals the scrape of a fresh Metrics (history must not matter), and the two identically configured interfaces (wildcard and static prefix, route, RDNSS; DNSSL) have identical samples in one scrape; non-trivial = configuration has a stanza; distinct = distinct case"
+	r.Rule = "cases = configurations (no stanza; each of 18 stanza variants alone: static/wildcard/deprecated prefix and route, static/wildcard RDNSS, DNSSL, MTU, no source LLA, captive portal, PREF64, non-default header; all together; all minus each) x lifecycle {plugins never prepared, prepared through the real Prepare with the NewAddresser seam} x State reads {ok, failing (some error, ENOENT, EACCES)} x forwarding {on,off} x debug.prometheus x debug.pprof; for each: one metrics scrape (constScrape and Memory.Series) and GET /_/api/interfaces, /metrics, /debug/pprof/ on the real crhttp.Handler, under recover; oracle: no panic ever; prepared + readable state => every sample and the JSON equal the reference RA (every option kind rendered); /metrics and /debug/pprof/ are 200 iff enabled, 404 otherwise; plus scrape histories over two advertising interfaces prepared one after the other (scrape after every step): no duplicate sample, every scrape equals the scrape of a fresh Metrics (history must not matter), and the two identically configured interfaces (wildcard and static prefix, route, RDNSS; DNSSL) have identical samples in one scrape; non-trivial = configuration has a stanza; distinct = distinct case"
 	if r.Replay != nil {
 		var c c17Case
 		if err := json.Unmarshal(r.Replay, &c); err != nil {
